@@ -125,6 +125,11 @@ Setter(e, accept, okConj) ==
         THEN C(who, "err.ret.nil", e.ret = "nil") \cup C(who, "err.recv.unchanged", e.post[e.recv] = e.pre[e.recv])
         ELSE C(who, "ok.ret.recv", e.ret = "recv") \cup okConj
 
+\* the byte slice given to a setter is left as it was, spare capacity included (C14: "no setter ever modifies
+\* its input"; C11: "input byte slices ... are left bit-for-bit unchanged")
+InputUnchanged(e) == LET ok == e.post[e.args[1]] = e.pre[e.args[1]]
+                     IN  C("C14", "input.unchanged", ok) \cup C("C11", "input.unchanged", ok)
+
 OpOk(e) ==
   LET a(i) == e.pre[e.args[i]]
       rpre == e.pre[e.recv]
@@ -142,7 +147,7 @@ OpOk(e) ==
          LET s == BufBytes(a(1))  acc == DecodeOK(s) IN
          C("C04", "accept.iff", (e.err = 0) <=> acc)
          \cup Setter(e, acc, V(e, "C04", "value", ~Uninit(rpost) /\ ValidP3(PR(rpost)) /\ IsDecodeOf(PA(rpost), s)))
-         \cup UN({C("C14", "input.unchanged", e.post[n] = e.pre[n]) : n \in {e.args[1]}})
+         \cup InputUnchanged(e)
     [] e.op = "Point.Bytes" ->
          LET o == e.post[e.outs[1]] IN
          (IF InputsValid(e) THEN V(e, "C05", "bytes", o.nil = 0 /\ BufBytes(o) = Encode(PA(rpre))) ELSE {})
@@ -208,17 +213,17 @@ OpOk(e) ==
          LET s == BufBytes(a(1))  acc == CanonicalOK(s) IN
          C("C08", "accept.iff", (e.err = 0) <=> acc)
          \cup Setter(e, acc, V(e, "C08", "value", acc => SV(rpost) = CanonicalVal(s)))
-         \cup C("C14", "input.unchanged", e.post[e.args[1]] = e.pre[e.args[1]])
+         \cup InputUnchanged(e)
     [] e.op = "Scalar.SetUniformBytes" ->
          LET s == BufBytes(a(1))  acc == UniformOK(s) IN
          C("C08", "accept.iff", (e.err = 0) <=> acc)
          \cup Setter(e, acc, V(e, "C08", "value", acc => SV(rpost) = UniformVal(s)))
-         \cup C("C14", "input.unchanged", e.post[e.args[1]] = e.pre[e.args[1]])
+         \cup InputUnchanged(e)
     [] e.op = "Scalar.SetBytesWithClamping" ->
          LET s == BufBytes(a(1))  acc == ClampOK(s) IN
          C("C08", "accept.iff", (e.err = 0) <=> acc)
          \cup Setter(e, acc, V(e, "C08", "value", acc => SV(rpost) = ClampVal(s)))
-         \cup C("C14", "input.unchanged", e.post[e.args[1]] = e.pre[e.args[1]])
+         \cup InputUnchanged(e)
     \* ----- field elements
     [] e.op = "Elem.Zero" -> C("C09", "value", EV(rpost) = FZero) \cup C("C09", "ret.recv", e.ret = "recv")
     [] e.op = "Elem.One"  -> C("C09", "value", EV(rpost) = FOne) \cup C("C09", "ret.recv", e.ret = "recv")
@@ -266,12 +271,12 @@ OpOk(e) ==
          LET s == BufBytes(a(1))  acc == Len(s) = NB IN
          C("C10", "accept.iff", (e.err = 0) <=> acc)
          \cup Setter(e, acc, C("C10", "value", acc => EV(rpost) = FDecode(s)))
-         \cup C("C14", "input.unchanged", e.post[e.args[1]] = e.pre[e.args[1]])
+         \cup InputUnchanged(e)
     [] e.op = "Elem.SetWideBytes" ->
          LET s == BufBytes(a(1))  acc == Len(s) = 2 * NB IN
          C("C10", "accept.iff", (e.err = 0) <=> acc)
          \cup Setter(e, acc, C("C10", "value", acc => EV(rpost) = FDecodeWide(s)))
-         \cup C("C14", "input.unchanged", e.post[e.args[1]] = e.pre[e.args[1]])
+         \cup InputUnchanged(e)
     \* driver-only actions: nothing to check, the new contents are adopted
     [] e.op \in {"Buf.Set", "Buf.Scribble", "Elem.Inject"} -> {}
     [] OTHER -> C("INFRA", "unknown.op", FALSE)
